@@ -1060,7 +1060,7 @@ def run(ctx):
         except RuntimeError as ex:
             ctx.broken.append({'kind': 'model-eval', 'error': str(ex)[:1500]})
     # 2. sessions
-    n = ctx.budget(36, 420)
+    n = ctx.budget(28, 420)
     sessions = corpus_sessions()
     i = 0
     while len(sessions) < n:
